@@ -548,14 +548,20 @@ def batch_shape_lost(out, ref):
     return bad
 
 
-def real_check(lat, beam, ex, ops=OPS):
+def real_check(lat, beam, ex, ops=OPS, prepare=None):
     """Returns (status, failures): status 'ok' | 'skipped:<why>'; failures = list of dicts (op, what, ...).
-    Works for scalar and vectorised settings (entry-wise comparisons through broadcasting)."""
+    Works for scalar and vectorised settings (entry-wise comparisons through broadcasting).
+    prepare(seg, b): a history applied to the live lattice first (its final parameter values are those of `lat`); the reference is
+    then tracked by a freshly built lattice."""
     import cheetah
     try:
         seg = realgen.build(lat)
         b = realgen.build_beam(beam)
-        ref = seg.track(b)
+        if prepare is not None:
+            prepare(seg, b)
+            ref = realgen.build(lat).track(b)
+        else:
+            ref = seg.track(b)
     except Exception as ex_:
         return "skipped:exception:" + type(ex_).__name__, []
     if has_nan(ref):
@@ -1133,6 +1139,75 @@ def lone_oracle(run, n):
             new_fail.append({"kind": "real_lattice", "lattice": lat, "beam": beam, "except_for": ex, "failure": f})
     return new_fail
 
+# ---------------------------------------------------------------- optimisations after a history on the same lattice object (round 8, C08-10)
+STRENGTH_ATTR = {"Quadrupole": "k1", "Dipole": "angle", "RBend": "angle", "Solenoid": "k", "HorizontalCorrector": "angle",
+                 "VerticalCorrector": "angle", "Cavity": "voltage", "TransverseDeflectingCavity": "voltage"}
+
+
+def _walk(seg):
+    import cheetah
+    for e in seg.elements:
+        if isinstance(e, cheetah.Segment):
+            yield from _walk(e)
+        else:
+            yield e
+
+
+def switched_off_history(seg, b):
+    """every powered element is first switched off (strength 0; diagnostics and apertures inactive), every optimisation is applied
+    and the lattice tracked - so whatever the code derives from the parameters (`is_active`, `is_skippable`, cached maps) has been
+    read in that state - and then the final values are assigned again.  A derived quantity that is cached at first use and not
+    invalidated by the assignment makes the optimisations treat a powered element as switched off."""
+    saved = []
+    for e in _walk(seg):
+        a = STRENGTH_ATTR.get(type(e).__name__)
+        if a is not None and isinstance(getattr(e, a, None), torch.Tensor):
+            v = getattr(e, a).clone()
+            saved.append((e, a, v))
+            setattr(e, a, torch.zeros_like(v))
+        elif type(e).__name__ in ("Aperture", "Screen", "BPM") and isinstance(getattr(e, "is_active", None), bool):
+            saved.append((e, "is_active", e.is_active))
+            e.is_active = False
+    for op in OPS:
+        try:
+            apply_op(seg, op, b, []).track(b)
+        except Exception:
+            pass
+    try:
+        seg.track(b)
+    except Exception:
+        pass
+    for e, a, v in saved:
+        setattr(e, a, v)
+    return len(saved)
+
+
+def history_oracle(run, n):
+    """real lattices (random and lone-element generators) whose powered elements went through switched_off_history: all four
+    optimisations of the live lattice vs a freshly built lattice with the same final values"""
+    new_fail = []
+    for i in range(n):
+        if i % 2:
+            lat, beam, ex = gen_real_case(run.rng)
+        else:
+            lat, beam, ex, _, _ = gen_lone_case(run.rng, i)
+        st, fails = real_check(lat, beam, ex, prepare=switched_off_history)
+        if st != "ok":
+            run.count("history_" + st)
+            continue
+        run.add_case(["history", lat, beam["type"], ex], True)
+        run.count("history_" + beam["type"])
+        known, new = classify_real(lat, beam, ex, fails)
+        for k in known:
+            run.known(k)
+            run.count("history_known_finding_hits")
+        for f in new:
+            new_fail.append({"kind": "real_lattice_after_history", "lattice": lat, "beam": beam, "except_for": ex, "failure": f,
+                             "history": "every powered element switched off, all four optimisations applied and tracked, final values "
+                                        "assigned again, then the optimisation under test (see switched_off_history in harness/props/c08.py)"})
+    return new_fail
+
+
 
 def zl_len(seg):
     try:
@@ -1227,6 +1302,7 @@ def main(tier, replay=None):
     new_real += f28_real_oracle(run, 160 if thorough else 24)
     # zero-strength skippable elements ALONE between non-mergeable neighbours at a few MeV (after the older stages, which keep their random stream)
     new_real += lone_oracle(run, 600 if thorough else 60)
+    new_real += history_oracle(run, 400 if thorough else 40)
     regressed = replay_known(run)
     # failures already reported through the stored input of a fixed entry are not reported a second time
     new_real = [it for it in new_real if not (it["failure"].get("regression_of") and set(it["failure"]["regression_of"]) <= set(regressed))]
@@ -1264,9 +1340,15 @@ def main(tier, replay=None):
                        "relation": "transformed segment tracks like the original, same length, excepted elements kept, merges only over skippable runs"})
     elif new_real:
         item = new_real[0]
-        lat = shrink_real(item["lattice"], item["beam"], item["except_for"], item["failure"]["op"], item["failure"]["what"])
-        st, fails = real_check(lat, item["beam"], item["except_for"], ops=(item["failure"]["op"],))
+        hist = item.get("history")
+        if hist:
+            lat = item["lattice"]
+            st, fails = real_check(lat, item["beam"], item["except_for"], ops=(item["failure"]["op"],), prepare=switched_off_history)
+        else:
+            lat = shrink_real(item["lattice"], item["beam"], item["except_for"], item["failure"]["op"], item["failure"]["what"])
+            st, fails = real_check(lat, item["beam"], item["except_for"], ops=(item["failure"]["op"],))
         run.violation({"kind": "real_lattice", "lattice": lat, "beam": item["beam"], "except_for": item["except_for"], "op": item["failure"]["op"],
+                       **({"history": hist} if hist else {}),
                        "failures": fails, "relation": "transformed segment tracks like the original (rtol 1e-9, entry-wise and with the same batch shape in vectorised "
                        "settings), same length, excepted elements kept, no merge across / drift replacement of an element that changes the beam energy in any batch entry"})
     elif failing or table_fail:
@@ -1299,7 +1381,7 @@ def do_replay(run, path):
         return 1 if bad else 0
     if r.get("kind") == "real_lattice" or "lattice" in r:
         ops = (r["op"],) if r.get("op") else OPS
-        st, fails = real_check(r["lattice"], r["beam"], r.get("except_for", []), ops=ops)
+        st, fails = real_check(r["lattice"], r["beam"], r.get("except_for", []), ops=ops, prepare=switched_off_history if r.get("history") else None)
         print("replay:", "property holds on this input" if not fails else f"property FAILS on this input: {json.dumps(fails, default=str)[:1500]}")
         return 1 if fails else 0
     print("replay: nothing to re-run (" + str(r.get("broken")) + ")")
